@@ -29,7 +29,8 @@ def generate(seed, tier):
                 break
         cases.append({'ds': ds, 'path': rng.choice(['default', 'default', 'explicit', 'explicit', 'temp.csv', 'sub/out.csv']),
                       'preexisting': rng.random() < 0.3, 'user_temp': rng.random() < 0.25,
-                      'force': rng.random() < 0.4, 'oversize': i % 25 == 24})
+                      'force': rng.random() < 0.4, 'oversize': i % 25 == 24,
+                      'view': rng.choice(['file', 'file', 'sorted', 'toggled'])})
     return cases
 
 
@@ -86,7 +87,9 @@ def run_impl(inp, work):
         return out
     before = listing()
     with h5py.File(h5path, 'r') as f:
-        u = USIDataset(f['G/main'])
+        u = USIDataset(f['G/main'], sort_dims=(inp.get('view') == 'sorted'))
+        if inp.get('view') == 'toggled':
+            u.toggle_sorting()
         r = call(u.to_csv, output_path=out_path, force=inp['force'])
         pos_desc = [str(x) for x in u.pos_dim_descriptors]
         spec_desc = [str(x) for x in u.spec_dim_descriptors]
@@ -200,6 +203,8 @@ def nontrivial(inp, obs):
 def model_requests_obs(inp, obs):
     if inp['oversize'] or 'table' not in obs:
         return []
+    if _dims_gt_points_sorted(inp, obs, 'layout'):
+        return []            # known finding D5a: the oracle reports it; the table model has no notion of the view
     exp = _expected_table(inp, obs)
     ds = inp['ds']
     P, Q = len(ds['pos']['sizes']), len(ds['spec']['sizes'])
@@ -222,7 +227,15 @@ def _temp_name(inp, obs, failure):
     return failure.startswith('returned-path (output named temp.csv)') or failure.startswith('file-destroyed (user temp.csv)')
 
 
-KNOWN_CLASSES = {'fixed_scratch_name': _temp_name}
+def _dims_gt_points_sorted(inp, obs, failure):
+    """the sorted view of a side with more dimensions than points goes through the shape heuristic of
+    get_sort_order (known finding D5a): its label list is shortened, and so is the padding of the header rows"""
+    ds = inp['ds']
+    return inp.get('view', 'file') in ('sorted', 'toggled') and failure.startswith('layout') and \
+        any(len(s['sizes']) > gen.n_points(s) for s in (ds['pos'], ds['spec']))
+
+
+KNOWN_CLASSES = {'fixed_scratch_name': _temp_name, 'more_dims_than_points': _dims_gt_points_sorted}
 
 
 def distribution(cases, obs):
